@@ -1,7 +1,7 @@
 /-
 C01 — integer expressions have the C11 value and the C11 type.
 
-Property theorems only (definitions and helper lemmas: Lemmas/C01Lemmas, C01OpLemmas, C01ArithLemmas, C01Select).
+Property theorems only (definitions and helper lemmas: Lemmas/C01Lemmas, C01OpLemmas, C01ArithLemmas, C01Select, C01MemLemmas).
 
 Objects:
 * `Gen.CommonType.getCommonType`, `opRule`  — regenerated from type.c on every check (translator);
@@ -15,6 +15,7 @@ Objects:
 Every theorem is for all register contents (2^64 each) / all operand values, not samples.
 -/
 import ChibiVerif.Lemmas.C01Select
+import ChibiVerif.Lemmas.C01MemLemmas
 
 namespace ChibiVerif.Props.C01
 open ChibiVerif.C01 ChibiVerif.X86 ChibiVerif.Asm ChibiVerif.Spec.IntSpec ChibiVerif.Gen.CommonType ChibiVerif.C01Codegen
@@ -160,6 +161,24 @@ theorem C01_lognot (t : ITy) (s : State) (v : Int) (h : Represents t (s.get .rax
   rw [hseq]
   obtain ⟨s', h1, h2⟩ := (if t.size = 8 then UnKind.lognot64 else UnKind.lognot32).effect s
   exact ⟨s', h1, h2 ▸ lognot_computes t _ _ h⟩
+
+/-! ## loads and stores -/
+
+/-- **sign- and zero-extending loads** (`movsbl/movzbl/movswl/movzwl (%rax),%eax`, `movsxd (%rax),%rax`, `mov (%rax),%rax`):
+    if the object of type `t` at the address in `%rax` holds `v`, the load leaves `%rax` representing `v` in type `t`
+    (in particular `unsigned int` objects are loaded with `movsxd`, which the invariant allows) and memory unchanged. -/
+theorem C01_load (t : ITy) (s : State) (v : Int) (h : MemHolds t s (s.get .rax) v) :
+    ∃ s', X86.run (loadSeq t) s = some s' ∧ Represents t (s'.get .rax) v ∧ s'.mem = s.mem :=
+  load_ok t s v h
+
+/-- **truncating stores** (`pop %rdi; mov %al/%ax/%eax/%rax,(%rdi)`): with the object's address on top of the stack and
+    `%rax` representing `v` in type `t`, afterwards the object holds `v`, `%rax` is unchanged (the value of the
+    assignment expression) and the stack is popped. -/
+theorem C01_store (t : ITy) (s : State) (p : BitVec 64) (v : Int) (hp : s.read64 (s.get .rsp) = p)
+    (h : Represents t (s.get .rax) v) :
+    ∃ s', X86.run (storeSeq t) s = some s' ∧ MemHolds t s' p v ∧ s'.get .rax = s.get .rax ∧
+      s'.get .rsp = s.get .rsp + 8 :=
+  store_ok t s p v hp h
 
 /-! ## `++` / `--` (parse.c `new_inc_dec`) -/
 
